@@ -1134,7 +1134,8 @@ def check_C15(rep, tier, seed, replay):
 PROP_THEOREMS = {
     "C01": ["C01_levels_above_10_behave_as_10", "C01_level0_lossless_for_every_input_partial",
             "C01_level0_raw_roundtrip_on_both_models_partial", "C01_level0_zlib_roundtrip_on_both_models_partial",
-            "C01_level0_api_roundtrip_on_both_models_partial", "C01_level0_compress_never_panics_partial"],
+            "C01_level0_api_roundtrip_on_both_models_partial", "C01_level0_compress_never_panics_partial",
+            "C01_level0_compress_returns_partial", "C01_level0_total_roundtrip_on_both_models_partial"],
     "C02": ["C02_counts_within_buffers", "C02_level0_lossless_under_every_schedule_partial",
             "C02_level0_any_schedule_then_any_split_partial", "C02_level0_every_schedule_never_panics_partial",
             "C02_level0_every_schedule_returns_partial"],
